@@ -251,4 +251,227 @@ theorem good_run (B : Nat → Nat) (N : Nat) (valid : File → Bool) (f0 : Optio
     · rename_i s1 hs1
       exact ih s1 s' (good_step B N valid f0 s s1 a hg hs1) h
 
+/-! ### different byte strings -/
+
+/-- Invariant for arbitrary bytes per call: untouched initial file while nobody has opened; while
+    exactly one call has opened, exactly the prefix it has written so far. -/
+structure GoodG (B : Bool → Nat → Nat) (N : Bool → Nat) (f0 : Option File) (s : Sys) : Prop where
+  bound : ∀ i p, s.ph i = .writing p → p ≤ N i
+  fresh : (s.ph false).opened = false → (s.ph true).opened = false → s.file = f0
+  single : ∀ l, (s.ph l).opened = true → (s.ph (!l)).opened = false →
+      ∃ f, s.file = some f ∧ IsPre f (B l) (posOf (N l) (s.ph l))
+
+theorem goodG_init (B : Bool → Nat → Nat) (N : Bool → Nat) (f0 : Option File) : GoodG B N f0 (init f0) := by
+  refine ⟨?_, ?_, ?_⟩
+  · intro i p h; simp [init] at h
+  · intro _ _; rfl
+  · intro l h; simp [init, Phase.opened] at h
+
+theorem goodG_setPh_unopened (B : Bool → Nat → Nat) (N : Bool → Nat) (f0 : Option File) (s : Sys) (i : Bool) (q : Phase)
+    (hg : GoodG B N f0 s) (hph : (s.ph i).opened = false) (hq : q.opened = false)
+    (hw : ∀ p, q ≠ .writing p) : GoodG B N f0 { s with ph := setPh s.ph i q } := by
+  obtain ⟨hb, hf, hs⟩ := hg
+  have hnew : ∀ j, ((setPh s.ph i q) j).opened = (s.ph j).opened := by
+    intro j
+    rcases bool_cases i j with h | h
+    · subst h; simp only [setPh_same, hph, hq]
+    · subst h; simp
+  have hpos : ∀ j, (s.ph j).opened = true → (setPh s.ph i q) j = s.ph j := by
+    intro j hj
+    rcases bool_cases i j with h | h
+    · subst h; rw [hph] at hj; cases hj
+    · subst h; simp
+  refine ⟨?_, ?_, ?_⟩
+  · intro j p h
+    rcases bool_cases i j with h' | h'
+    · subst h'; simp only [setPh_same] at h; exact absurd h (hw p)
+    · subst h'; simp only [setPh_not] at h; exact hb _ _ h
+  · intro h0 h1
+    rw [hnew] at h0 h1
+    exact hf h0 h1
+  · intro l hl hnl
+    rw [hnew] at hl hnl
+    obtain ⟨f, hfile, hpre⟩ := hs l hl hnl
+    refine ⟨f, hfile, ?_⟩
+    show IsPre f (B l) (posOf (N l) (setPh s.ph i q l))
+    rw [hpos l hl]; exact hpre
+
+theorem goodG_step (B : Bool → Nat → Nat) (N : Bool → Nat) (valid : File → Bool) (f0 : Option File) (s s' : Sys)
+    (a : Act) (hg : GoodG B N f0 s) (hstep : stepG B N valid s a = some s') : GoodG B N f0 s' := by
+  obtain ⟨hb, hf, hs⟩ := hg
+  cases a with
+  | load i =>
+    simp only [stepG] at hstep
+    split at hstep
+    · rename_i hph
+      injection hstep with hstep
+      subst hstep
+      apply goodG_setPh_unopened B N f0 s i _ ⟨hb, hf, hs⟩
+      · rw [hph]; rfl
+      · exact ite_phase_opened _
+      · intro p; exact ite_phase_ne_writing _ p
+    · cases hstep
+  | openW i =>
+    simp only [stepG] at hstep
+    split at hstep
+    · rename_i hph
+      injection hstep with hstep
+      subst hstep
+      refine ⟨?_, ?_, ?_⟩
+      · intro j p h
+        rcases bool_cases i j with h' | h'
+        · subst h'; simp only [setPh_same] at h; injection h with h; omega
+        · subst h'; simp only [setPh_not] at h; exact hb _ _ h
+      · intro h0 h1
+        exfalso
+        cases i <;> simp [Phase.opened] at h0 h1
+      · intro l hl hnl
+        rcases bool_cases i l with h | h
+        · subst h
+          exact ⟨File.empty, rfl, by simp [IsPre, posOf, File.empty]⟩
+        · subst h
+          simp [Phase.opened] at hnl
+    · cases hstep
+  | write i n =>
+    simp only [stepG] at hstep
+    split at hstep
+    · rename_i pos hph
+      split at hstep
+      · rename_i hn
+        injection hstep with hstep
+        subst hstep
+        have hio : (s.ph i).opened = true := by rw [hph]; rfl
+        refine ⟨?_, ?_, ?_⟩
+        · intro j p h
+          rcases bool_cases i j with h' | h'
+          · subst h'; simp only [setPh_same] at h; injection h with h; omega
+          · subst h'; simp only [setPh_not] at h; exact hb _ _ h
+        · intro h0 h1
+          exfalso
+          cases i <;> simp_all [Phase.opened]
+        · intro l hl hnl
+          rcases bool_cases i l with h | h
+          · subst h
+            simp only [setPh_not] at hnl
+            obtain ⟨f, hfile, hlen, hbytes⟩ := hs l hio hnl
+            simp only [hph, posOf] at hlen hbytes
+            refine ⟨f.writeAt pos n (B l), by simp [hfile], ?_, ?_⟩
+            · simp only [setPh_same, posOf, File.writeAt]; omega
+            · intro k hk
+              simp only [setPh_same, posOf] at hk
+              simp only [File.writeAt]
+              split
+              · rfl
+              · have hk' : k < pos := by omega
+                have : k < f.len := by omega
+                simp [this, hbytes k hk']
+          · subst h
+            simp only [Bool.not_not, setPh_same, Phase.opened] at hnl
+            cases hnl
+      · cases hstep
+    · cases hstep
+  | close i =>
+    simp only [stepG] at hstep
+    split at hstep
+    · rename_i pos hph
+      split at hstep
+      · rename_i hN
+        injection hstep with hstep
+        subst hstep
+        have hopen : ∀ j, ((setPh s.ph i (Phase.done false)) j).opened = (s.ph j).opened := by
+          intro j
+          rcases bool_cases i j with h | h
+          · subst h; simp only [setPh_same, hph]; rfl
+          · subst h; simp
+        refine ⟨?_, ?_, ?_⟩
+        · intro j p h
+          rcases bool_cases i j with h' | h'
+          · subst h'; simp only [setPh_same] at h; cases h
+          · subst h'; simp only [setPh_not] at h; exact hb _ _ h
+        · intro h0 h1
+          simp only [hopen] at h0 h1
+          exact hf h0 h1
+        · intro l hl hnl
+          simp only [hopen] at hl hnl
+          obtain ⟨f, hfile, hpre⟩ := hs l hl hnl
+          refine ⟨f, hfile, ?_⟩
+          rcases bool_cases i l with h | h
+          · subst h
+            simp only [setPh_same, posOf]
+            simp only [hph, posOf, hN] at hpre
+            exact hpre
+          · subst h
+            simp only [setPh_not]
+            exact hpre
+      · cases hstep
+    · cases hstep
+  | replace i =>
+    simp only [stepG] at hstep
+    split at hstep
+    · rename_i hph
+      injection hstep with hstep
+      subst hstep
+      refine ⟨?_, ?_, ?_⟩
+      · intro j p h
+        rcases bool_cases i j with h' | h'
+        · subst h'; simp only [setPh_same] at h; cases h
+        · subst h'; simp only [setPh_not] at h; exact hb _ _ h
+      · intro h0 h1
+        exfalso
+        cases i <;> simp [Phase.opened] at h0 h1
+      · intro l hl hnl
+        rcases bool_cases i l with h | h
+        · subst h
+          exact ⟨File.full (B l) (N l), rfl, by simp [IsPre, posOf, File.full]⟩
+        · subst h
+          simp [Phase.opened] at hnl
+    · cases hstep
+
+theorem goodG_run (B : Bool → Nat → Nat) (N : Bool → Nat) (valid : File → Bool) (f0 : Option File) :
+    ∀ (acts : List Act) (s s' : Sys), GoodG B N f0 s → runActsG B N valid s acts = some s' → GoodG B N f0 s' := by
+  intro acts
+  induction acts with
+  | nil => intro s s' hg h; simp only [runActsG, Option.some.injEq] at h; subst h; exact hg
+  | cons a rest ih =>
+    intro s s' hg h
+    simp only [runActsG] at h
+    split at h
+    · cases h
+    · rename_i s1 hs1
+      exact ih s1 s' (goodG_step B N valid f0 s s1 a hg hs1) h
+
+/-- With atomic writers only, the file is always the initial one or a complete cache of one call. -/
+theorem atomic_file (B : Bool → Nat → Nat) (N : Bool → Nat) (valid : File → Bool) (f0 : Option File) :
+    ∀ (acts : List Act) (s s' : Sys), atomicOnly acts = true →
+      (s.file = f0 ∨ ∃ i, s.file = some (File.full (B i) (N i))) →
+      runActsG B N valid s acts = some s' →
+      (s'.file = f0 ∨ ∃ i, s'.file = some (File.full (B i) (N i))) := by
+  intro acts
+  induction acts with
+  | nil => intro s s' _ h hr; simp only [runActsG, Option.some.injEq] at hr; subst hr; exact h
+  | cons a rest ih =>
+    intro s s' hat h hr
+    simp only [runActsG] at hr
+    split at hr
+    · cases hr
+    · rename_i s1 hs1
+      cases a with
+      | load i =>
+        simp only [atomicOnly] at hat
+        simp only [stepG] at hs1
+        split at hs1
+        · have hfile : s1.file = s.file := by injection hs1 with e; rw [← e]
+          exact ih s1 s' hat (by rw [hfile]; exact h) hr
+        · cases hs1
+      | replace i =>
+        simp only [atomicOnly] at hat
+        simp only [stepG] at hs1
+        split at hs1
+        · have hfile : s1.file = some (File.full (B i) (N i)) := by injection hs1 with e; rw [← e]
+          exact ih s1 s' hat (Or.inr ⟨i, hfile⟩) hr
+        · cases hs1
+      | openW i => simp [atomicOnly] at hat
+      | write i n => simp [atomicOnly] at hat
+      | close i => simp [atomicOnly] at hat
+
 end PymocaVerif.CacheFile
